@@ -421,6 +421,26 @@ class Interp:
         if len(e.generators) != 1 or e.generators[0].ifs:
             return Opaque(U(e))
         g = e.generators[0]
+        rng = self._range_of(g.iter, st, func, selfobj)
+        if rng is not None:
+            # comprehension over range(..): evaluate the element once with a symbolic loop variable
+            lo, count, enum, it_node = rng
+            name = '%s@%s.L%d' % (U(g.target).replace(' ', ''), func.name, e.lineno)
+            k = self.T.declare(name, 0, count, kind='loop', count=count, start=lo, node=e)
+            loop = Loop(name, count, e)
+            loop.lo = lo
+            sub = State(dict(st.env), st.events, st.conds)
+            if enum and isinstance(g.target, (ast.Tuple, ast.List)) and len(g.target.elts) == 2:
+                self.assign(g.target.elts[0], k, sub, func, selfobj)
+                self.assign(g.target.elts[1], lo + k, sub, func, selfobj)
+            else:
+                self.assign(g.target, lo + k, sub, func, selfobj)
+            self.loops.append(loop)
+            try:
+                self.eval(e.elt, sub, func, selfobj)
+            finally:
+                self.loops.pop()
+            return Opaque('list over ' + U(g.iter))
         it = self.eval(g.iter, st, func, selfobj)
         if not isinstance(it, Tup):
             return Opaque(U(e))
@@ -662,7 +682,7 @@ class Interp:
             elif p not in env:
                 env[p] = Opaque('unbound ' + p)
         sub = State(env, st.events, list(st.conds))
-        self.stack.append(('call', tgt, node, func))
+        self.stack.append(('call', tgt, node, func, pool))
         try:
             outs = self.run_body(tgt.node.body, [sub], tgt, recv)
         finally:
@@ -814,21 +834,27 @@ class Interp:
             return [Outcome(st, 'fall')]
         return [Outcome(st, 'fall')]
 
-    def for_loop(self, s, st, func, selfobj):
-        T = self.T
-        it = s.iter
+    def _range_of(self, it, st, func, selfobj):
         enum = False
         if isinstance(it, ast.Call) and U(it.func) == 'enumerate' and it.args:
             enum = True
             it = it.args[0]
-        lo = count = None
         if isinstance(it, ast.Call) and U(it.func) == 'range':
             vs = [self.eval(a, st, func, selfobj) for a in it.args]
             if all(isinstance(v, Poly) for v in vs):
                 if len(vs) == 1:
-                    lo, count = C(0), vs[0]
-                elif len(vs) == 2:
-                    lo, count = vs[0], vs[1] - vs[0]
+                    return C(0), vs[0], enum, it
+                if len(vs) == 2:
+                    return vs[0], vs[1] - vs[0], enum, it
+        return None
+
+    def for_loop(self, s, st, func, selfobj):
+        T = self.T
+        rng = self._range_of(s.iter, st, func, selfobj)
+        lo = count = None
+        enum = False
+        if rng is not None:
+            lo, count, enum, _ = rng
         name = '%s@%s.L%d' % (U(s.target).replace(' ', ''), func.name, s.lineno)
         if count is not None:
             k = T.declare(name, 0, count, kind='loop', count=count, start=lo, node=s)
